@@ -70,6 +70,63 @@ def numeric_compare(row, rng, n_points, tol=1e-7):
     return done, skipped, None
 
 
+def tlm_sweep(rng, n_per_config):
+    """the general transmission line: all 27 admissible configurations (X_1/X_2 finite or short but not both short, Zeta
+    finite, Z_A/Z_B finite|short|open) x random finite sub-circuits, plus a sample of inadmissible ones (which both sides
+    must refuse): get_impedances vs the substituted symbolic expression.  Returns (configs, compared, first failure)."""
+    import itertools
+    import numpy as np
+    import sympy
+    from pyimpspec import parse_cdc
+    finite_subs = ["R{R=%g}", "[R{R=%g}C{C=1e-3}]", "(R{R=%g}C{C=2e-4})", "Q{Y=%g,n=0.7}", "[R{R=%g}W{Y=0.5}]"]
+    keys = ["X_1", "X_2", "Z_A", "Z_B", "Zeta"]
+    all_cfgs = list(itertools.product(["fin", "short", "open"], repeat=5))
+
+    def admissible(c):
+        return c[0] != "open" and c[1] != "open" and not (c[0] == "short" and c[1] == "short") and c[4] == "fin"
+    good = [c for c in all_cfgs if admissible(c)]
+    bad = rng.sample([c for c in all_cfgs if not admissible(c)], 12)
+    configs = compared = 0
+    for cfg in good * n_per_config + bad:
+        configs += 1
+        parts = []
+        for k, c in zip(keys, cfg):
+            if c == "fin":
+                parts.append("%s=%s" % (k, rng.choice(finite_subs) % rng.choice([0.5, 1.0, 2.0, 5.0, 13.0])))
+            else:
+                parts.append("%s=%s" % (k, c))
+        text = "Tlm{%s,L=%g}" % (",".join(parts), rng.choice([0.3, 1.0, 2.5]))
+        try:
+            circuit = parse_cdc(text)
+        except Exception as e:  # noqa
+            return configs, compared, {"cdc": text, "error": "parse: " + type(e).__name__}
+        f = 10 ** rng.uniform(-2, 3)
+        try:
+            with np.errstate(all="ignore"):
+                num = complex(circuit.get_impedances(np.array([f]))[0])
+        except Exception as e:  # noqa
+            num = type(e).__name__
+        try:
+            expr = circuit.to_sympy(substitute=True)
+            fs = list(expr.free_symbols)
+            sym = complex(sympy.lambdify(fs, expr, "mpmath")(*[f for _ in fs])) if fs else complex(expr)
+        except Exception as e:  # noqa
+            sym = type(e).__name__
+        if isinstance(num, str) or isinstance(sym, str):
+            # refused by both sides (e.g. a shorted boundary next to a shorted rail divides by zero in both) is consistent;
+            # refused by exactly one side is a disagreement
+            if isinstance(num, str) != isinstance(sym, str) and num != "InfiniteImpedance":
+                return configs, compared, {"cdc": text, "f": f, "numeric": str(num), "symbolic": str(sym)}
+            continue
+        if not (cmath.isfinite(num) and cmath.isfinite(sym)):
+            continue
+        compared += 1
+        if abs(num - sym) > 1e-7 * abs(sym):
+            return configs, compared, {"cdc": text, "f": f, "numeric": repr(num), "equation": repr(sym),
+                                       "relative_difference": abs(num - sym) / abs(sym)}
+    return configs, compared, None
+
+
 def known_match(kf, sym, failure):
     for f in kf.get("findings", []):
         if f.get("property") == PROP and f.get("match", {}).get("element") == sym:
@@ -127,6 +184,13 @@ def run(rep, tier, seed, tr_errors):
         elif sym in broken:
             rep.violation("lemma_%s" % sym, {"kind": "broken-obligation", "obligation": "lemma:%s_impl_eq_eqn" % sym,
                                              "detail": broken[sym], "numeric_points_tried": done}, no_input=True)
+    cfgs, ncmp, tfail = tlm_sweep(rng, 2 if tier == "quick" else 20)
+    sweep["Tlm"] = {"configurations": cfgs, "compared": ncmp, "failed": tfail is not None}
+    rep.evaluations += ncmp
+    rep.oblige("tlm-numeric-vs-symbolic (27 admissible configurations + sampled inadmissible ones; exercised, not proved)", tfail is None,
+               "" if tfail is None else json.dumps(tfail)[:300])
+    if tfail is not None:
+        rep.violation("numeric_Tlm", {"kind": "counterexample", "obligation": "Tlm: get_impedances = substituted symbolic expression", "input": tfail})
     rep.extra["numeric_sweep"] = sweep
     rep.samples = [{"class": s, **v} for s, v in list(sweep.items())[:4]]
     if not thm_ok and not rep.violations and not rep.known:
